@@ -1,6 +1,7 @@
 import ShootVerif.Proofs.MapperExec
 import ShootVerif.Proofs.MapperTables
 import ShootVerif.Proofs.MapperResolve
+import ShootVerif.Proofs.MapperHeadlines
 /-!
 C09 — ToX and FromX never panic and FromX fully resets its receiver.
 
@@ -21,65 +22,12 @@ sorts first; Model/MapSort.lean, Proofs/MapperTables.lean).
 -/
 namespace ShootVerif.Mapper
 
-theorem plan_plain_ctors (inp : Input) (hs : inp.srcNew = false) (hd : inp.destNew = false) :
-    (plan inp).destCtor = none ∧ (plan inp).srcCtor = none := by
-  simp [plan, hs, hd, sideParams, ctorMatch]
-
-theorem fnOk (mp : Option Bool) (b : Bool) (cs : List Claim) (h : (mp != some true || !hasFunc cs) = true)
-    (hb : b = true → mp = some true) : ∀ c ∈ cs, fnCallOk b c.strat = true := by
-  intro c hc
-  cases b with
-  | false => cases c.strat <;> rfl
-  | true =>
-    have hm := hb rfl
-    subst hm
-    simp only [bne_self_eq_false, Bool.false_or, Bool.not_eq_true', hasFunc, List.any_eq_false] at h
-    have := h c hc
-    cases hs : c.strat <;> simp_all [fnCallOk]
-
 /-- headline: for every nil assignment, ToX and FromX run without panic and compute the ideal result
     (each statement executed completely or skipped) — whatever the receiver of FromX held before -/
 theorem C09_no_panic (inp : Input) (h : WF09 inp = true) (N : List String) :
     execTo inp N = .value (idealTo inp (plan inp) (tables inp (plan inp)) N) ∧
-    ∀ recv, execFrom inp N recv = .value (idealFrom inp (plan inp) (tables inp (plan inp)) N) := by
-  have ht := tablesOk_of_WF09 inp h
-  simp only [TablesOk, Bool.and_eq_true, List.all_eq_true] at ht
-  obtain ⟨⟨⟨hcD, hcS⟩, htTo⟩, htFrom⟩ := ht
-  simp only [WF09, Bool.and_eq_true, Bool.not_eq_true', List.all_eq_true] at h
-  obtain ⟨⟨⟨⟨hs, hd⟩, hm⟩, _⟩, _⟩ := h
-  have hctor := plan_plain_ctors inp hs hd
-  have hm' : (inp.mapperPtr != some true || !hasFunc (plan inp).toStmts) = true ∧
-      (inp.mapperPtr != some true || !hasFunc (plan inp).fromStmts) = true := by
-    cases hmp : (inp.mapperPtr != some true)
-    · simp only [hmp, Bool.false_or, Bool.and_eq_true] at hm ⊢; exact hm
-    · simp
-  constructor
-  · unfold execTo execToP
-    simp only [Bool.false_eq_true, ↓reduceIte, hctor.1]
-    have ha := execAlloc_ok inp.destSem.ptrs (tables inp (plan inp)).destAlloc {} hcD
-    rw [ha]
-    have := execStmts_ideal inp.srcSem inp.destSem (tables inp (plan inp)).destAlloc N
-      (inp.mapperPtr == some true && N.contains "Mapper") (plan inp).toStmts
-      { alloc := [] ++ (tables inp (plan inp)).destAlloc } htTo (by simp)
-      (fnOk inp.mapperPtr _ _ hm'.1 (by
-        intro hb
-        simp only [Bool.and_eq_true, beq_iff_eq] at hb
-        exact hb.1))
-    simp only [List.nil_append] at this
-    simp only [bind, Except.bind, this, ofExcept, idealTo, idealStart, hctor.1, List.nil_append]
-  · intro recv
-    unfold execFrom execFromP
-    simp only [Bool.false_eq_true, ↓reduceIte, hctor.2]
-    have ha := execAlloc_ok inp.srcSem.ptrs (tables inp (plan inp)).srcAlloc {} hcS
-    rw [ha]
-    have := execStmts_ideal inp.destSem inp.srcSem (tables inp (plan inp)).srcAlloc N
-      (inp.mapperPtr == some true) (plan inp).fromStmts
-      { alloc := [] ++ (tables inp (plan inp)).srcAlloc } htFrom (by simp)
-      (fnOk inp.mapperPtr _ _ hm'.2 (by
-        intro hb
-        simpa using hb))
-    simp only [List.nil_append] at this
-    simp only [bind, Except.bind, this, ofExcept, idealFrom, idealStart, hctor.2, List.nil_append]
+    ∀ recv, execFrom inp N recv = .value (idealFrom inp (plan inp) (tables inp (plan inp)) N) :=
+  no_panic inp h N
 
 /-- `WF09` itself follows from clauses about the INPUT (no clause about the plan's statements but "the pointer-embedded
     mapper type is not called"): plain sides, every field name resolves by Go's rule (`wfSelectors`, a clause of the
